@@ -355,6 +355,14 @@ class EffectAnalysis(object):
 
     def value_is_item(self, fi, expr):
         """True / False / None(unknown): is the stored value a HeaderItem/CurveItem instance?"""
+        # a copy has the type of what is copied; an element of a module-level table of items is an item
+        if isinstance(expr, ast.Call) and ast.unparse(expr.func) in ("deepcopy", "copy.deepcopy", "copy.copy", "copy") and len(expr.args) >= 1:
+            return self.value_is_item(fi, expr.args[0])
+        if isinstance(expr, ast.Subscript) and isinstance(expr.value, ast.Name):
+            gv = fi.module.globals.get(expr.value.id, [])
+            if len(gv) == 1 and isinstance(gv[0], ast.Dict) and gv[0].values and all(
+                    isinstance(v, ast.Call) and isinstance(v.func, ast.Name) and v.func.id in ITEM_CLASSES for v in gv[0].values):
+                return True
         ts = self.r.type_of(fi, expr)
         if any(t[0] == "inst" and (set(c.name for c in t[1].mro()) & ITEM_CLASSES) for t in ts):
             return True
